@@ -258,6 +258,8 @@ class _Formatter:
         # the keyword is emitted, decremented on the matching ``:``.
         # Used to keep ``lambda x=1: x`` and ``lambda: x`` unmodified.
         self._lambda_depth = 0
+        # Number of f-strings we are inside of (PEP 701 allows nesting).
+        self._fstring_depth = 0
         # True at the start of every physical line (before indent has
         # been emitted). Becomes False after the first token on a line.
         self._line_start = True
@@ -487,6 +489,10 @@ class _Formatter:
                 self._lambda_depth -= 1
         elif ttype == NAME and tstr == "lambda":
             self._lambda_depth += 1
+        elif ttype == FSTRING_START:
+            self._fstring_depth += 1
+        elif ttype == FSTRING_END and self._fstring_depth > 0:
+            self._fstring_depth -= 1
 
     # ---------------------------------------------------------------
     # Blank-line handling
@@ -522,6 +528,16 @@ class _Formatter:
             return ""
         if pt in (FSTRING_START, FSTRING_MIDDLE):
             return ""
+        # Inside a replacement field of an f-string white space can be
+        # significant (``f"{x = }"`` prints it, ``f"{x:{w}}"`` must not gain
+        # a fill character): copy the source gap when the reported positions
+        # are coherent, otherwise fall through to the rules below.
+        if (
+            self._fstring_depth > 0
+            and prev.end[0] == cur.start[0]
+            and cur.start[1] >= prev.end[1]
+        ):
+            return self._src_lines[prev.end[0] - 1][prev.end[1] : cur.start[1]]
 
         # Bang macro marker glued to its lead token — alias macros
         # (``name!``), block macros (``with! ctx:``), and friends. The
